@@ -79,6 +79,7 @@ class LockStep:
         self.log = []
         self.walk = None
         self.failed = False
+        self.last_tag = None
         self.hooks_after = []   # callables(self, op, args) after each call
 
     def describe(self):
@@ -90,6 +91,7 @@ class LockStep:
         d.update(kw)
         from . import findings
         tag = findings.diagnose_hist(self, mechanism, _raw or {})
+        self.last_tag = tag
         if tag:
             d['finding'] = tag
         d['history'] = [brief(x, 120) for x in self.log[-60:]]
@@ -148,7 +150,12 @@ class LockStep:
                            detail=brief(ro[2]),
                            _raw=dict(op=op, args=rargs, ro=ro, mo=mo,
                                      present=present, walk=before))
-            return False
+            if not self.last_tag or (op in MUTATING_OPS and
+                                     ro[0] != mo[0]):
+                return False
+            # a result mismatch that is an instance of a recorded finding:
+            # keep going (the contents comparison below still applies)
+            self.failed = False
         outcome = 'exc:' + ro[1] if ro[0] == 'exc' else 'ok'
         # contents after every call
         try:
